@@ -72,9 +72,16 @@ func WriteDrawing(d *Drawing) (out []byte, err error) {
 		p := &canvas.Path{}
 		for _, s := range dr.Subs {
 			for i, v := range s.V {
-				if i == 0 {
+				switch {
+				case i == 0:
 					p.MoveTo(float64(v[0]), float64(v[1]))
-				} else {
+				case i-1 < len(s.Pc) && s.Pc[i-1].K == "B" && len(s.Pc[i-1].H) == 3:
+					h := s.Pc[i-1].H
+					p.QuadTo(float64(h[1][0]), float64(h[1][1]), float64(v[0]), float64(v[1]))
+				case i-1 < len(s.Pc) && s.Pc[i-1].K == "B" && len(s.Pc[i-1].H) == 4:
+					h := s.Pc[i-1].H
+					p.CubeTo(float64(h[1][0]), float64(h[1][1]), float64(h[2][0]), float64(h[2][1]), float64(v[0]), float64(v[1]))
+				default:
 					p.LineTo(float64(v[0]), float64(v[1]))
 				}
 			}
